@@ -67,7 +67,7 @@ func Specs() []TypeSpec {
 		{"allow_fallback_on_error": true},
 	}
 
-	return []TypeSpec{
+	return withFallbackVariants([]TypeSpec{
 		// ------------------------------------------------------------ authenticators
 		{
 			Name: "anonymous", Kind: KindAuthenticator, Type: "anonymous",
@@ -284,7 +284,49 @@ func Specs() []TypeSpec {
 			Overrides: []map[string]any{{"realm": "o1-realm"}, {"realm": "o2-realm"}},
 			Subjects:  []string{"-"},
 		},
+	})
+}
+
+// withFallbackVariants adds, for every authenticator that knows allow_fallback_on_error, a catalogue
+// entry that switches it ON, with overrides that switch it off again or leave it alone.
+func withFallbackVariants(specs []TypeSpec) []TypeSpec {
+	out := specs
+
+	for _, sp := range specs {
+		if sp.Kind != KindAuthenticator {
+			continue
+		}
+
+		knows := false
+
+		for _, o := range sp.Overrides {
+			if _, ok := o["allow_fallback_on_error"]; ok {
+				knows = true
+			}
+		}
+
+		if !knows {
+			continue
+		}
+
+		v := sp
+		v.Name = sp.Name + "_fb"
+		v.Cat = deepCopy(sp.Cat)
+		v.Cat["allow_fallback_on_error"] = true
+		v.Overrides = []map[string]any{{"allow_fallback_on_error": false}}
+
+		for _, o := range sp.Overrides {
+			if _, ok := o["allow_fallback_on_error"]; !ok {
+				v.Overrides = append(v.Overrides, o) // another setting overridden: the fallback stays on
+
+				break
+			}
+		}
+
+		out = append(out, v)
 	}
+
+	return out
 }
 
 // ---------------------------------------------------------------- configuration helpers
